@@ -946,6 +946,14 @@ def extract_runtime(src: Path) -> str:
             closed_reenters = "self.protocol.handle" in closed_calls
             handlers = [h for st in branches["RawData"] for h in ast.walk(st) if isinstance(h, ast.ExceptHandler)]
             write_err_closes = len(handlers) == 1 and [c for st in handlers[0].body for c in calls(st)][:2] == ["self.protocol.handle", "Closed"]
+            # ... for every exception class the transport raises for a write that cannot be done: asyncio's StreamWriter
+            # (ConnectionError family from drain(), RuntimeError from write() after write_eof()); trio's stream
+            # (BrokenResourceError, ClosedResourceError)
+            need = {"asyncio": {"ConnectionError", "RuntimeError"}, "trio": {"BrokenResourceError", "ClosedResourceError"}}[worker]
+            if write_err_closes:
+                t = handlers[0].type
+                got = {ast.unparse(e).split(".")[-1] for e in (t.elts if isinstance(t, ast.Tuple) else [t])} if t is not None else set()
+                write_err_closes = need <= got or "Exception" in got or t is None
             upd = branches["Updated"]
             upd_ok = (len(upd) == 1 and isinstance(upd[0], ast.If) and ast.unparse(upd[0].test) == "event.idle"
                       and "self.idle_task.restart" in calls(upd[0].body[0]) and "self.idle_task.stop" in calls(upd[0].orelse[0]))
@@ -969,6 +977,16 @@ def extract_runtime(src: Path) -> str:
             breaks_on_empty = any(isinstance(n, ast.If) and ast.unparse(n.test).replace('"', "'") == "data == b''" and any(isinstance(b, ast.Break) for b in n.body)
                                   for n in ast.walk(loop))
             handles_raw = any(ast.unparse(c) == "self.protocol.handle(RawData(data))" for c in ast.walk(loop) if isinstance(c, ast.Call))
+            # the read time-out bounds the read only, never the protocol's handling of what was read (the shell model has no
+            # way for a time-out to interrupt `protocol.handle`)
+            for n in ast.walk(loop):
+                scoped = None
+                if isinstance(n, (ast.With, ast.AsyncWith)) and any("fail_after" in ast.unparse(i.context_expr) or "timeout" in ast.unparse(i.context_expr) for i in n.items):
+                    scoped = n.body
+                elif isinstance(n, ast.Call) and ast.unparse(n.func).endswith("wait_for"):
+                    scoped = n.args[:1]
+                if scoped is not None and any("protocol.handle" in ast.unparse(x) for x in scoped):
+                    fail(f"runtime {worker}", "the read time-out scope of _read_data also covers protocol.handle(...)")
             after = [ast.unparse(st) for st in rd.body[rd.body.index(loop) + 1:]]  # type: ignore
             if not handles_raw or after != ["await self.protocol.handle(Closed())"]:
                 fail(f"runtime {worker}", f"_read_data body not recognised (after loop: {after})")
@@ -1235,6 +1253,117 @@ def extract_h2_init(src: Path) -> str:
     return "\n".join(out)
 
 
+def extract_ws_guards(src: Path) -> str:
+    """C11: the test `Handshake.is_valid` applies to `Sec-WebSocket-Version` (the operator and the constant), as a Lean
+    function over the last version header value."""
+    out = ["/- GENERATED by tools/extract.py — Handshake.is_valid: the Sec-WebSocket-Version test — do not edit -/",
+           "import HC.Prelude", "namespace HC.Extracted.WsGuards",
+           "/-- Python `k in v` on bytes: `k` occurs as a contiguous substring -/",
+           "def containsSub (k : HC.Bytes) : HC.Bytes → Bool\n  | [] => k.isEmpty\n  | c :: t => k.isPrefixOf (c :: t) || containsSub k t"]
+    try:
+        tree = parse(src / "protocol/ws_stream.py")
+        consts: Dict[str, Any] = {}
+        for st in tree.body:
+            if isinstance(st, ast.ImportFrom) and st.module == "wsproto.handshake" and any(a.name == "WEBSOCKET_VERSION" for a in st.names):
+                wtree = parse(_site_packages_file("wsproto", "handshake.py"))
+                for w in wtree.body:
+                    if isinstance(w, ast.Assign) and len(w.targets) == 1 and ast.unparse(w.targets[0]) == "WEBSOCKET_VERSION" \
+                            and isinstance(w.value, ast.Constant) and isinstance(w.value.value, bytes):
+                        consts["WEBSOCKET_VERSION"] = w.value.value
+            if isinstance(st, ast.Assign) and len(st.targets) == 1 and ast.unparse(st.targets[0]) == "WEBSOCKET_VERSION" \
+                    and isinstance(st.value, ast.Constant) and isinstance(st.value.value, bytes):
+                consts["WEBSOCKET_VERSION"] = st.value.value
+
+        def const(n: ast.AST) -> Optional[str]:
+            v = None
+            if isinstance(n, ast.Name) and n.id in consts:
+                v = consts[n.id]
+            elif isinstance(n, ast.Constant) and isinstance(n.value, bytes):
+                v = n.value
+            if v is None:
+                return None
+            return "[" + ", ".join(str(b) for b in v) + "]"
+
+        def is_ver(n: ast.AST) -> bool:
+            return ast.unparse(n) == "self.version"
+
+        def tr(n: ast.AST) -> Optional[str]:
+            if isinstance(n, ast.UnaryOp) and isinstance(n.op, ast.Not):
+                x = tr(n.operand)
+                return None if x is None else f"(!{x})"
+            if isinstance(n, ast.BoolOp):
+                xs = [tr(v) for v in n.values]
+                if None in xs:
+                    return None
+                return "(" + (" && " if isinstance(n.op, ast.And) else " || ").join(xs) + ")"  # type: ignore
+            if isinstance(n, ast.Compare) and len(n.ops) == 1:
+                l, op, r = n.left, n.ops[0], n.comparators[0]
+                if is_ver(l) and isinstance(r, ast.Constant) and r.value is None:
+                    if isinstance(op, (ast.Is, ast.Eq)):
+                        return "v.isNone"
+                    if isinstance(op, (ast.IsNot, ast.NotEq)):
+                        return "v.isSome"
+                k = const(r) if is_ver(l) else (const(l) if is_ver(r) else None)
+                if k is not None and isinstance(op, ast.Eq):
+                    return f"(v == some {k})"
+                if k is not None and isinstance(op, ast.NotEq):
+                    return f"(v != some {k})"
+                if is_ver(r) and const(l) is not None and isinstance(op, (ast.In, ast.NotIn)):
+                    c = f"(match v with | some b => containsSub {const(l)} b | none => false)"
+                    return c if isinstance(op, ast.In) else f"(!{c})"
+            return None
+
+        fn = find_def(tree, "Handshake", "is_valid")
+        sites = [n for n in ast.walk(fn) if isinstance(n, ast.If) and "self.version" in ast.unparse(n.test)]  # type: ignore
+        other = [n for n in ast.walk(fn) if isinstance(n, ast.Attribute) and ast.unparse(n) == "self.version"]  # type: ignore
+        if "WEBSOCKET_VERSION" not in consts:
+            fail("ws version", "WEBSOCKET_VERSION is not a bytes constant imported from wsproto.handshake / defined in ws_stream.py")
+        elif len(sites) != 1 or len(other) != sum(1 for n in ast.walk(sites[0].test) if isinstance(n, ast.Attribute) and ast.unparse(n) == "self.version"):
+            fail("ws version", f"expected exactly one `if` over self.version in Handshake.is_valid (found {len(sites)}; self.version is used {len(other)} times)")
+        else:
+            site = sites[0]
+            body = [ast.unparse(x) for x in site.body]
+            x = tr(site.test)
+            if x is None or site.orelse or body not in (["return False"], ["return True"]):
+                fail("ws version", f"`if {ast.unparse(site.test)}: {'; '.join(body)}` not translatable")
+            elif fn.body[-1] is not site and ast.unparse(fn.body[-1]) != "return True":  # type: ignore
+                fail("ws version", "is_valid does not end with `return True`")
+            else:
+                out.append(f"def websocketVersion : HC.Bytes := {const(ast.Name(id='WEBSOCKET_VERSION'))}   -- WEBSOCKET_VERSION = {consts['WEBSOCKET_VERSION']!r}")
+                neg = "!" if body == ["return False"] else ""
+                out.append(f"/-- the version header passes `is_valid`'s test: `if {ast.unparse(site.test)}: {body[0]}` -/")
+                out.append(f"def versionAccepted (v : Option HC.Bytes) : Bool :=\n  {neg}{x}")
+    except Exception as e:
+        fail("ws version", f"{type(e).__name__}: {e}")
+    # ---- WSStream._handle_events, CloseConnection while REMOTE_CLOSING: is the client's code recorded before the echo is awaited?
+    try:
+        fn = find_def(parse(src / "protocol/ws_stream.py"), "WSStream", "_handle_events")
+        sites = [n for n in ast.walk(fn) if isinstance(n, ast.If) and "ConnectionState.REMOTE_CLOSING" in ast.unparse(n.test)]  # type: ignore
+        if len(sites) != 1 or sites[0].orelse:
+            fail("ws close branch", f"expected one `if self.connection.state == ConnectionState.REMOTE_CLOSING:` without else (found {len(sites)})")
+        else:
+            tags: List[str] = []
+            for st in sites[0].body:
+                u = ast.unparse(st)
+                if isinstance(st, ast.Assign) and ast.unparse(st.targets[0]) == "self.client_close_code" and u.endswith("int(event.code)"):
+                    tags.append("recordCode")
+                elif u == "await self._send_wsproto_event(event.response())":
+                    tags.append("echo")
+                else:
+                    fail("ws close branch", f"statement not recognised: `{u[:80]}`")
+                    tags = []
+                    break
+            if tags and sorted(tags) != ["echo", "recordCode"]:
+                fail("ws close branch", f"expected one recording of the code and one echo, found {tags}")
+            elif tags:
+                out.append("def closeBranch : List String := [" + ", ".join(q(t) for t in tags) + "]   -- statements under `if … REMOTE_CLOSING:` in order")
+                out.append(f"def closeCodeBeforeEcho : Bool := {'true' if tags.index('recordCode') < tags.index('echo') else 'false'}")
+    except Exception as e:
+        fail("ws close branch", f"{type(e).__name__}: {e}")
+    out += ["end HC.Extracted.WsGuards", ""]
+    return "\n".join(out)
+
+
 def main() -> int:
     ap = argparse.ArgumentParser()
     ap.add_argument("--repo", default="/repo")
@@ -1245,7 +1374,7 @@ def main() -> int:
     outd.mkdir(parents=True, exist_ok=True)
     for name, fn in [("Cli", extract_cli), ("Consts", extract_consts), ("Guards", extract_guards), ("Excepts", extract_excepts),
                      ("H11Tables", extract_h11_tables), ("Limits", extract_limits), ("Atomic", extract_atomic), ("Runtime", extract_runtime),
-                     ("AppExit", extract_app_exit), ("H2Init", extract_h2_init)]:
+                     ("AppExit", extract_app_exit), ("H2Init", extract_h2_init), ("WsGuards", extract_ws_guards)]:
         CURRENT[0] = name
         try:
             text = fn(src)
